@@ -31,6 +31,7 @@ pub fn cfg_a(cx: &Cx) -> (PCfg, Vec<&'static str>) {
     c.capture_destructured = true;
     c.self_in_tuple = true;
     c.tuple_inputs = false;
+    c.nested_tuples = true;
     (c, off)
 }
 
